@@ -1,2 +1,680 @@
-use qvlib::Ctx;
-pub fn main(_ctx: Ctx) -> ! { std::process::exit(2) }
+//! C21 — zone validation reports exactly the defined semantic issues.
+//!
+//! Zones = base x every subset of at most k records from a menu x both glue
+//! policies x classes IN / CH / HS, built on a real `HashMapTreeZone`;
+//! `validate()` is compared, as a set, with a reference checker written from
+//! the property statement, the documentation of each issue and of
+//! `GluePolicy`, RFC 1034 §4.2.1/§4.3.2 and RFC 4592.
+
+use std::collections::BTreeSet;
+use std::sync::atomic::{AtomicU64, Ordering};
+
+use quandary::class::Class;
+use quandary::db::zone::{GluePolicy, ValidationIssue};
+use quandary::db::{HashMapTreeZone, Zone};
+use quandary::rr::{Ttl, Type};
+use qvlib::qd::{qname, rdata, wn};
+use qvlib::wire::{self, c, t, WName};
+use qvlib::{catch, hex, json, panic_key, unhex, Ctx, Local, Value};
+
+use crate::refmodel::{is_wildcard, RefStore, Resolved, Rr};
+
+const APEX: &str = "t.";
+const TTL: u32 = 60;
+
+// ---------------------------------------------------------------- the oracle
+
+#[derive(Clone, Debug, PartialEq, Eq, PartialOrd, Ord)]
+pub struct Issue {
+    kind: &'static str,
+    /// Lower-cased wire name; empty for the three apex-level kinds.
+    name: WName,
+}
+
+impl Issue {
+    fn text(&self) -> String {
+        if self.name.is_empty() {
+            self.kind.to_string()
+        } else {
+            format!("{}({})", self.kind, wire::name_text(&self.name))
+        }
+    }
+}
+
+const WARNINGS: [&str; 2] = ["MissingMxAddress", "NsAtWildcard"];
+
+#[derive(Default)]
+struct Expect {
+    /// Issues every reading of the statement demands.
+    must: BTreeSet<Issue>,
+    /// Issues on which the statement is silent (accepted present or absent).
+    may: BTreeSet<Issue>,
+    /// Which under-determined situations occurred in this zone.
+    decisions: BTreeSet<&'static str>,
+    /// RDATA that must be parsed is malformed: `Err(InvalidRdata)` is accepted.
+    malformed: bool,
+}
+
+fn class_has_addresses(class: u16) -> bool {
+    // Address types are defined for the Internet class (A, AAAA) and for
+    // Chaosnet (A); no address type is defined for other classes.
+    class == c::IN || class == c::CH
+}
+
+fn has_address(z: &RefStore, node: &[u8]) -> bool {
+    z.has(node, t::A) || (z.class == c::IN && z.has(node, t::AAAA))
+}
+
+fn name_field(rd: &[u8], skip: usize) -> Option<WName> {
+    let f = rd.get(skip..)?;
+    if wire::is_valid_uncompressed_all(f) {
+        Some(wire::lower(f))
+    } else {
+        None
+    }
+}
+
+/// "In-zone name server / mail exchanger without an address": the target is
+/// authoritative data of this zone (at or below the apex, not at or below a
+/// zone cut) and a lookup of it finds no address record.
+fn check_in_zone_target(z: &RefStore, target: &[u8], kind: &'static str, e: &mut Expect) {
+    match z.resolve(target, false) {
+        Resolved::Outside | Resolved::Cut(_) => {}
+        Resolved::NxDomain => {
+            e.must.insert(Issue { kind, name: target.to_vec() });
+        }
+        Resolved::Node { node, synthesized } => {
+            if !has_address(z, &node) {
+                if synthesized && z.has(&node, t::NS) {
+                    // RFC 4592 §4.2 leaves an NS RRset at a wildcard undefined:
+                    // read as a cut there would be nothing to report.
+                    e.decisions.insert("target synthesised from a wildcard that owns NS");
+                    e.may.insert(Issue { kind, name: target.to_vec() });
+                } else {
+                    e.must.insert(Issue { kind, name: target.to_vec() });
+                }
+            }
+        }
+    }
+}
+
+fn check_delegation_target(z: &RefStore, wide: bool, owner: &[u8], target: &[u8], e: &mut Expect) {
+    match z.resolve(target, false) {
+        Resolved::Outside => {}
+        Resolved::NxDomain | Resolved::Node { .. } => check_in_zone_target(z, target, "MissingNsAddress", e),
+        Resolved::Cut(cut) => {
+            // The name server lives in a child zone (`cut` is the topmost cut
+            // above it). Wide: glue always required. Narrow: required iff that
+            // child zone is the one this NS RRset delegates.
+            let required = wide || cut == owner;
+            let unclear = !required && wire::eq_or_subdomain(target, owner);
+            if unclear {
+                // Narrow policy, the NS owner is itself below another cut and
+                // the server is below the owner: "in the child zone named by
+                // the owner" can be read either way.
+                e.decisions.insert("narrow policy, delegation occluded by a higher cut");
+            }
+            if !(required || unclear) {
+                return;
+            }
+            let (missing, certain) = match z.resolve(target, true) {
+                Resolved::Node { node, synthesized } => {
+                    let ok = has_address(z, &node);
+                    if ok && synthesized {
+                        // An address synthesised from a wildcard below the cut:
+                        // the statement does not say whether that is glue.
+                        e.decisions.insert("glue only by wildcard synthesis below a cut");
+                        (true, false)
+                    } else {
+                        (!ok, true)
+                    }
+                }
+                _ => (true, true),
+            };
+            if missing {
+                let issue = Issue { kind: "MissingGlue", name: target.to_vec() };
+                if required && certain {
+                    e.must.insert(issue);
+                } else {
+                    e.may.insert(issue);
+                }
+            }
+        }
+    }
+}
+
+/// The reference checker.
+fn reference(z: &RefStore, wide: bool) -> Expect {
+    let mut e = Expect::default();
+    let addrs = class_has_addresses(z.class);
+    match z.rrset(&z.apex, t::SOA) {
+        None => {
+            e.must.insert(Issue { kind: "MissingApexSoa", name: vec![] });
+        }
+        Some(set) if set.1.len() > 1 => {
+            e.must.insert(Issue { kind: "TooManyApexSoas", name: vec![] });
+        }
+        _ => {}
+    }
+    if !z.has(&z.apex, t::NS) {
+        e.must.insert(Issue { kind: "MissingApexNs", name: vec![] });
+    }
+    for (owner, node) in &z.nodes {
+        let at_apex = *owner == z.apex;
+        if let Some(cn) = node.get(&t::CNAME) {
+            if node.len() > 1 {
+                e.must.insert(Issue { kind: "OtherRecordsAtCname", name: owner.clone() });
+            }
+            if cn.1.len() > 1 {
+                e.must.insert(Issue { kind: "DuplicateCname", name: owner.clone() });
+            }
+        }
+        if let Some(ns) = node.get(&t::NS) {
+            if is_wildcard(owner) {
+                e.must.insert(Issue { kind: "NsAtWildcard", name: owner.clone() });
+            }
+            if addrs {
+                for rd in &ns.1 {
+                    match name_field(rd, 0) {
+                        None => e.malformed = true,
+                        Some(target) => {
+                            if at_apex {
+                                check_in_zone_target(z, &target, "MissingNsAddress", &mut e);
+                            } else {
+                                check_delegation_target(z, wide, owner, &target, &mut e);
+                            }
+                        }
+                    }
+                }
+            }
+        }
+        if let Some(mx) = node.get(&t::MX) {
+            if addrs {
+                for rd in &mx.1 {
+                    match name_field(rd, 2) {
+                        None => e.malformed = true,
+                        Some(target) => check_in_zone_target(z, &target, "MissingMxAddress", &mut e),
+                    }
+                }
+            }
+        }
+    }
+    let must = e.must.clone();
+    e.may.retain(|i| !must.contains(i));
+    e
+}
+
+// ------------------------------------------------------------------ the menu
+
+#[derive(Clone, Debug)]
+enum Rd {
+    Addr4,
+    Addr6,
+    Name(&'static str),
+    Mx(&'static str),
+    Soa(u32),
+    Txt,
+    Raw(&'static [u8]),
+}
+
+#[derive(Clone, Debug)]
+struct Item {
+    owner: &'static str,
+    typ: u16,
+    rd: Rd,
+}
+
+fn it(owner: &'static str, typ: u16, rd: Rd) -> Item {
+    Item { owner, typ, rd }
+}
+
+fn materialize(item: &Item, class: u16) -> Rr {
+    let rd: Vec<u8> = match &item.rd {
+        Rd::Addr4 => {
+            if class == c::CH {
+                // Chaosnet A: a domain name and a 16-bit address.
+                let mut v = wire::wname("ch-net.");
+                v.extend_from_slice(&[0, 7]);
+                v
+            } else {
+                vec![192, 0, 2, 1]
+            }
+        }
+        Rd::Addr6 => vec![0x20, 1, 0xd, 0xb8, 0, 0, 0, 0, 0, 0, 0, 0, 0, 0, 0, 1],
+        Rd::Name(n) => wire::wname(n),
+        Rd::Mx(n) => {
+            let mut v = vec![0, 10];
+            v.extend_from_slice(&wire::wname(n));
+            v
+        }
+        Rd::Soa(serial) => {
+            let mut v = wire::wname("ns.t.");
+            v.extend_from_slice(&wire::wname("hm.t."));
+            for x in [*serial, 2, 3, 4, 5] {
+                v.extend_from_slice(&x.to_be_bytes());
+            }
+            v
+        }
+        Rd::Txt => b"\x01x".to_vec(),
+        Rd::Raw(b) => b.to_vec(),
+    };
+    Rr { owner: wire::wname(item.owner), typ: item.typ, class, ttl: TTL, rdata: rd }
+}
+
+/// The healthy base: one SOA, one apex NS whose server has an address.
+fn healthy_base() -> Vec<Item> {
+    vec![it("t.", t::SOA, Rd::Soa(1)), it("t.", t::NS, Rd::Name("ns.t.")), it("ns.t.", t::A, Rd::Addr4)]
+}
+
+fn menu() -> Vec<Item> {
+    use Rd::*;
+    vec![
+        // apex
+        it("t.", t::SOA, Soa(1)),
+        it("t.", t::SOA, Soa(2)),
+        it("t.", t::NS, Name("ns.t.")),
+        it("T.", t::NS, Name("NS.T.")), // same record by case
+        it("t.", t::NS, Name("ns.a.t.")), // server possibly below a cut
+        it("t.", t::NS, Name("ns.u.")),   // server outside the zone
+        it("t.", t::NS, Name("e.t.")),    // server name: missing or an empty non-terminal
+        it("t.", t::MX, Mx("mx.t.")),
+        it("t.", t::MX, Mx("ns.a.t.")),
+        it("t.", t::MX, Mx("mx.u.")),
+        it("t.", t::CNAME, Name("w.t.")),
+        // addresses of the apex servers / exchangers
+        it("ns.t.", t::A, Addr4),
+        it("ns.t.", t::AAAA, Addr6),
+        it("mx.t.", t::A, Addr4),
+        it("MX.t.", t::AAAA, Addr6),
+        it("mx.t.", t::CNAME, Name("w.t.")),
+        // delegation a.t.
+        it("a.t.", t::NS, Name("ns.a.t.")), // server inside the child
+        it("a.t.", t::NS, Name("ns.b.t.")), // server inside a sibling child (if b.t. is delegated)
+        it("a.t.", t::NS, Name("ns.t.")),   // server in the parent zone
+        it("a.t.", t::NS, Name("ns.u.")),   // server outside
+        it("a.t.", t::NS, Name("a.t.")),    // the cut itself as server
+        it("a.t.", t::NS, Name("nx.t.")),   // in-zone name that may not exist
+        it("ns.a.t.", t::A, Addr4),         // glue
+        it("NS.a.t.", t::AAAA, Addr6),      // glue, IPv6 only
+        it("a.t.", t::A, Addr4),            // glue at the cut
+        it("*.a.t.", t::A, Addr4),          // wildcard below the cut
+        // delegation b.t.
+        it("b.t.", t::NS, Name("ns.b.t.")),
+        it("b.t.", t::NS, Name("ns.a.t.")),
+        it("ns.b.t.", t::A, Addr4),
+        // delegation below a delegation (occluded)
+        it("c.a.t.", t::NS, Name("ns.c.a.t.")),
+        it("c.a.t.", t::NS, Name("ns.t.")),
+        it("ns.c.a.t.", t::A, Addr4),
+        it("c.a.t.", t::MX, Mx("mx.t.")),
+        // wildcards
+        it("*.t.", t::NS, Name("ns.t.")),
+        it("*.t.", t::NS, Name("ns.a.t.")),
+        it("*.t.", t::A, Addr4),
+        it("*.t.", t::MX, Mx("mx.t.")),
+        it("*.b.t.", t::NS, Name("ns.u.")),
+        // CNAMEs
+        it("w.t.", t::CNAME, Name("x.t.")),
+        it("w.t.", t::CNAME, Name("y.t.")),
+        it("W.t.", t::CNAME, Name("X.T.")), // same record by case
+        it("w.t.", t::A, Addr4),
+        it("w.t.", t::TXT, Txt),
+        it("w.t.", t::NS, Name("ns.t.")),
+        it("nx.t.", t::CNAME, Name("ns.t.")), // server name that is an alias
+        // empty non-terminal
+        it("x.e.t.", t::A, Addr4),
+        it("e.t.", t::AAAA, Addr6),
+        it("mx.t.", t::TXT, Txt),
+    ]
+}
+
+/// Malformed NS / MX RDATA, checked in a small separate family.
+fn malformed_menu() -> Vec<Item> {
+    use Rd::*;
+    vec![
+        it("t.", t::NS, Raw(b"\x02ns\x01t\x00junk")),
+        it("t.", t::NS, Raw(b"\x02ns\x01t")),
+        it("a.t.", t::NS, Raw(b"")),
+        it("a.t.", t::NS, Raw(b"\xc0\x0c")),
+        it("t.", t::MX, Raw(b"\x00")),
+        it("t.", t::MX, Raw(b"\x00\x0a\x02mx\x01t\x00\x00")),
+        it("w.t.", t::MX, Raw(b"\x00\x0a\x40")),
+    ]
+}
+
+// ------------------------------------------------------------------ checking
+
+fn issue_of(i: &ValidationIssue) -> Issue {
+    let low = |n: &quandary::name::Name| wire::lower(&wn(n));
+    match i {
+        ValidationIssue::MissingApexSoa => Issue { kind: "MissingApexSoa", name: vec![] },
+        ValidationIssue::TooManyApexSoas => Issue { kind: "TooManyApexSoas", name: vec![] },
+        ValidationIssue::MissingApexNs => Issue { kind: "MissingApexNs", name: vec![] },
+        ValidationIssue::MissingNsAddress(n) => Issue { kind: "MissingNsAddress", name: low(n) },
+        ValidationIssue::MissingMxAddress(n) => Issue { kind: "MissingMxAddress", name: low(n) },
+        ValidationIssue::MissingGlue(n) => Issue { kind: "MissingGlue", name: low(n) },
+        ValidationIssue::DuplicateCname(n) => Issue { kind: "DuplicateCname", name: low(n) },
+        ValidationIssue::OtherRecordsAtCname(n) => Issue { kind: "OtherRecordsAtCname", name: low(n) },
+        ValidationIssue::NsAtWildcard(n) => Issue { kind: "NsAtWildcard", name: low(n) },
+    }
+}
+
+struct Verdict {
+    class: String,
+    /// (key, what) of a violation.
+    bad: Option<(String, String)>,
+    got: Vec<String>,
+    must: Vec<String>,
+    may: Vec<String>,
+    decisions: Vec<&'static str>,
+}
+
+fn judge(zone: &HashMapTreeZone, model: &RefStore, wide: bool) -> Verdict {
+    let exp = reference(model, wide);
+    let texts = |s: &BTreeSet<Issue>| s.iter().map(|i| i.text()).collect::<Vec<_>>();
+    let mut v = Verdict { class: String::new(), bad: None, got: vec![], must: texts(&exp.must), may: texts(&exp.may), decisions: exp.decisions.iter().copied().collect() };
+    let res = catch(|| zone.validate().map(|issues| issues.iter().map(|i| (issue_of(i), i.is_error())).collect::<Vec<_>>()));
+    let issues = match res {
+        Err(p) => {
+            v.class = "panic".into();
+            v.bad = Some((panic_key(&p), p));
+            return v;
+        }
+        Ok(Err(e)) => {
+            v.class = format!("Err({e:?})");
+            v.got = vec![format!("Err({e:?})")];
+            if !(exp.malformed && e == quandary::db::Error::InvalidRdata) {
+                v.bad = Some(("unexpected-error".into(), format!("validate() returned Err({e:?}) for a zone whose NS/MX RDATA is all well formed")));
+            }
+            return v;
+        }
+        Ok(Ok(i)) => i,
+    };
+    let got: BTreeSet<Issue> = issues.iter().map(|(i, _)| i.clone()).collect();
+    v.got = texts(&got);
+    let mut kinds: BTreeSet<&str> = got.iter().map(|i| i.kind).collect();
+    if kinds.is_empty() {
+        kinds.insert("clean");
+    }
+    v.class = kinds.into_iter().collect::<Vec<_>>().join("+");
+    if exp.malformed {
+        v.class = format!("malformed-rdata-not-parsed:{}", v.class);
+    }
+    if !exp.may.is_empty() {
+        let taken = exp.may.iter().filter(|i| got.contains(*i)).count();
+        v.class.push_str(&format!(" [undetermined:{}of{}reported]", taken, exp.may.len()));
+    }
+    for (i, is_err) in &issues {
+        if *is_err == WARNINGS.contains(&i.kind) {
+            v.bad = Some((format!("severity:{}", i.kind), format!("{} has is_error() = {is_err}; only MissingMxAddress and NsAtWildcard are warnings", i.text())));
+            return v;
+        }
+    }
+    if let Some(m) = exp.must.iter().find(|i| !got.contains(*i)) {
+        v.bad = Some((format!("missing:{}", m.kind), format!("the reference checker finds {} but validate() does not report it", m.text())));
+    } else if let Some(s) = got.iter().find(|i| !exp.must.contains(*i) && !exp.may.contains(*i)) {
+        v.bad = Some((format!("spurious:{}", s.kind), format!("validate() reports {} but the reference checker finds no such issue", s.text())));
+    }
+    v
+}
+
+fn policy_text(wide: bool) -> &'static str {
+    if wide {
+        "Wide"
+    } else {
+        "Narrow"
+    }
+}
+
+fn case_json(class: u16, wide: bool, recs: &[Rr], v: &Verdict) -> Value {
+    json!({
+        "apex": APEX, "class": class, "glue_policy": policy_text(wide),
+        "records": recs.iter().map(|r| r.to_json()).collect::<Vec<_>>(),
+        "validate_reported": v.got, "reference_requires": v.must, "reference_accepts_either_way": v.may, "undetermined_because": v.decisions,
+        "what": v.bad.as_ref().map(|b| b.1.clone()),
+    })
+}
+
+fn build(class: u16, wide: bool, recs: &[Rr]) -> Result<(HashMapTreeZone, RefStore), String> {
+    let mut zone = HashMapTreeZone::new(qname(&wire::wname(APEX)), Class::from(class), if wide { GluePolicy::Wide } else { GluePolicy::Narrow });
+    let mut model = RefStore::new(&wire::wname(APEX), class);
+    for r in recs {
+        add(&mut zone, &mut model, r)?;
+    }
+    Ok((zone, model))
+}
+
+fn add(zone: &mut HashMapTreeZone, model: &mut RefStore, r: &Rr) -> Result<(), String> {
+    let got = catch(|| zone.add(&qname(&r.owner), Type::from(r.typ), Class::from(r.class), Ttl::from(r.ttl), rdata(&r.rdata)))?;
+    let want = model.add(r);
+    match (got, want) {
+        (Ok(()), Ok(_)) => Ok(()),
+        (g, w) => Err(format!("harness: add of {} gave {g:?} / model {w:?}", r.to_json())),
+    }
+}
+
+const DECISIONS: [&str; 3] = ["target synthesised from a wildcard that owns NS", "narrow policy, delegation occluded by a higher cut", "glue only by wildcard synthesis below a cut"];
+static DECISION_ZONES: [AtomicU64; 3] = [AtomicU64::new(0), AtomicU64::new(0), AtomicU64::new(0)];
+
+struct Walk<'a> {
+    class: u16,
+    wide: bool,
+    menu: &'a [Rr],
+    max: usize,
+    chosen: Vec<usize>,
+    base: &'a [Rr],
+    zones: u64,
+    undetermined: u64,
+}
+
+impl Walk<'_> {
+    fn visit(&mut self, l: &mut Local, zone: &HashMapTreeZone, model: &RefStore) {
+        l.tick();
+        self.zones += 1;
+        let v = judge(zone, model, self.wide);
+        if !v.may.is_empty() {
+            self.undetermined += 1;
+        }
+        for d in &v.decisions {
+            if let Some(i) = DECISIONS.iter().position(|x| x == d) {
+                DECISION_ZONES[i].fetch_add(1, Ordering::Relaxed);
+            }
+        }
+        let recs = || -> Vec<Rr> { self.base.iter().cloned().chain(self.chosen.iter().map(|i| self.menu[*i].clone())).collect() };
+        l.outcome(&v.class, || case_json(self.class, self.wide, &recs(), &v));
+        if let Some((key, _)) = &v.bad {
+            l.violation(key, case_json(self.class, self.wide, &recs(), &v));
+        }
+    }
+
+    /// Visits every extension of the current subset by records with a larger
+    /// menu index (each subset exactly once).
+    fn extend(&mut self, l: &mut Local, zone: &HashMapTreeZone, model: &RefStore) {
+        if self.chosen.len() >= self.max {
+            return;
+        }
+        let start = self.chosen.last().map(|x| x + 1).unwrap_or(0);
+        for i in start..self.menu.len() {
+            let mut z = zone.clone();
+            let mut m = model.clone();
+            if let Err(e) = add(&mut z, &mut m, &self.menu[i]) {
+                eprintln!("MACHINERY: {e}");
+                std::process::exit(3);
+            }
+            self.chosen.push(i);
+            self.visit(l, &z, &m);
+            self.extend(l, &z, &m);
+            self.chosen.pop();
+        }
+    }
+}
+
+struct Family {
+    label: &'static str,
+    class: u16,
+    wide: bool,
+    healthy: bool,
+    max: usize,
+    malformed: bool,
+}
+
+fn class_text(cl: u16) -> &'static str {
+    match cl {
+        1 => "IN",
+        3 => "CH",
+        4 => "HS",
+        _ => "?",
+    }
+}
+
+fn replay(ctx: Ctx, case: &Value) -> ! {
+    let class = case.get("class").and_then(|c| c.as_u64()).unwrap_or(1) as u16;
+    let wide = case.get("glue_policy").and_then(|p| p.as_str()) == Some("Wide");
+    let recs: Vec<Rr> = case.get("records").and_then(|o| o.as_array()).map(|a| a.iter().filter_map(Rr::from_json).collect()).unwrap_or_default();
+    println!("replaying a zone of {} records, class {}, glue policy {}", recs.len(), class_text(class), policy_text(wide));
+    match build(class, wide, &recs) {
+        Err(e) => {
+            eprintln!("bad replay case: {e}");
+            std::process::exit(2);
+        }
+        Ok((zone, model)) => {
+            let v = judge(&zone, &model, wide);
+            println!("validate(): {:?}\nreference requires: {:?}\nreference accepts either way: {:?}", v.got, v.must, v.may);
+            match &v.bad {
+                Some((key, what)) => {
+                    println!("reproduced: {key}: {what}");
+                    ctx.violation(key, case_json(class, wide, &recs, &v));
+                }
+                None => println!("not reproduced: the case passes"),
+            }
+        }
+    }
+    ctx.finish("exploration", "replay of one recorded case", false)
+}
+
+pub fn main(ctx: Ctx) -> ! {
+    if let Some(case) = ctx.replay_case().cloned() {
+        replay(ctx, &case);
+    }
+    // Subset bounds: empty base; healthy base for CH; healthy base for IN.
+    let (k_all, k_deep_ch, k_deep_in) = ctx.pick((3, 4, 4), (4, 5, 6));
+    let mut families = Vec::new();
+    for class in [c::IN, c::CH, c::HS] {
+        for wide in [false, true] {
+            families.push(Family { label: "empty base", class, wide, healthy: false, max: k_all, malformed: false });
+            // One more record on top of the healthy base for the classes that
+            // have address types (that is where glue and address issues live).
+            let deep = match class {
+                c::IN => k_deep_in,
+                c::CH => k_deep_ch,
+                _ => k_all,
+            };
+            families.push(Family { label: "healthy base (SOA, NS ns.t., ns.t. A)", class, wide, healthy: true, max: deep, malformed: false });
+            families.push(Family { label: "malformed NS/MX RDATA on the healthy base", class, wide, healthy: true, max: 2, malformed: true });
+        }
+    }
+    // Shards: (family, first chosen menu index or none).
+    let menus: Vec<(Vec<Rr>, Vec<Rr>)> = families
+        .iter()
+        .map(|f| {
+            let base: Vec<Rr> = if f.healthy { healthy_base().iter().map(|i| materialize(i, f.class)).collect() } else { vec![] };
+            let items = if f.malformed {
+                let mut m = malformed_menu();
+                m.extend(menu().into_iter().filter(|i| matches!(i.owner, "a.t." | "ns.a.t.") || i.typ == t::MX).take(8));
+                m
+            } else {
+                menu()
+            };
+            (base, items.iter().map(|i| materialize(i, f.class)).collect())
+        })
+        .collect();
+    let mut shards: Vec<(usize, Option<usize>)> = Vec::new();
+    for (fi, _) in families.iter().enumerate() {
+        shards.push((fi, None));
+        for first in 0..menus[fi].1.len() {
+            shards.push((fi, Some(first)));
+        }
+    }
+    // Rotate by the seed (order only).
+    let rot = (ctx.seed as usize) % shards.len();
+    shards.rotate_left(rot);
+    let per_family: Vec<(AtomicU64, AtomicU64)> = families.iter().map(|_| (AtomicU64::new(0), AtomicU64::new(0))).collect();
+    ctx.par_for_each(&shards, |l, (fi, first)| {
+        let f = &families[*fi];
+        let (base, menu) = &menus[*fi];
+        let (zone, model) = build(f.class, f.wide, base).unwrap_or_else(|e| {
+            eprintln!("MACHINERY: {e}");
+            std::process::exit(3)
+        });
+        let mut w = Walk { class: f.class, wide: f.wide, menu, max: f.max, chosen: vec![], base, zones: 0, undetermined: 0 };
+        match first {
+            None => w.visit(l, &zone, &model),
+            Some(i) => {
+                let mut z = zone.clone();
+                let mut m = model.clone();
+                if let Err(e) = add(&mut z, &mut m, &menu[*i]) {
+                    eprintln!("MACHINERY: {e}");
+                    std::process::exit(3);
+                }
+                w.chosen.push(*i);
+                w.visit(l, &z, &m);
+                w.extend(l, &z, &m);
+            }
+        }
+        per_family[*fi].0.fetch_add(w.zones, Ordering::Relaxed);
+        per_family[*fi].1.fetch_add(w.undetermined, Ordering::Relaxed);
+    });
+    // is_error() of every variant, directly.
+    {
+        let mut l = ctx.local();
+        let n = qname(&wire::wname("n.t."));
+        let all = [
+            ValidationIssue::MissingApexSoa,
+            ValidationIssue::TooManyApexSoas,
+            ValidationIssue::MissingApexNs,
+            ValidationIssue::MissingNsAddress(n.clone()),
+            ValidationIssue::MissingMxAddress(n.clone()),
+            ValidationIssue::MissingGlue(n.clone()),
+            ValidationIssue::DuplicateCname(&n),
+            ValidationIssue::OtherRecordsAtCname(&n),
+            ValidationIssue::NsAtWildcard(&n),
+        ];
+        for i in &all {
+            l.tick();
+            let r = issue_of(i);
+            if i.is_error() == WARNINGS.contains(&r.kind) {
+                l.violation(&format!("severity:{}", r.kind), json!({"issue": r.kind, "is_error": i.is_error()}));
+            }
+        }
+    }
+    ctx.set_extra(
+        "families",
+        Value::Array(
+            families
+                .iter()
+                .enumerate()
+                .map(|(i, f)| json!({"base": f.label, "class": class_text(f.class), "glue_policy": policy_text(f.wide), "menu_records": menus[i].1.len(), "max_added_records": f.max, "zones": per_family[i].0.load(Ordering::Relaxed), "zones_with_undetermined_issue": per_family[i].1.load(Ordering::Relaxed)}))
+                .collect(),
+        ),
+    );
+    ctx.set_extra("zones_touching_an_oracle_decision", json!(DECISIONS.iter().enumerate().map(|(i, d)| json!({"decision": d, "zones": DECISION_ZONES[i].load(Ordering::Relaxed)})).collect::<Vec<_>>()));
+    ctx.set_extra("menu", Value::Array(menu().iter().map(|i| materialize(i, c::IN).to_json()).collect()));
+    ctx.set_extra(
+        "oracle_decisions",
+        json!([
+            "every NS, MX and CNAME RRset stored in the zone is checked, including those below a zone cut (occluded): the statement and the module documentation speak of 'any' NS/MX records and say that occluded data is not treated specially",
+            "a name 'has an address' if resolving it in the zone (RFC 1034 §4.3.2, RFC 4592 synthesis included) ends at a node owning A, or AAAA in class IN; in-zone means authoritative (not at or below a cut)",
+            "address types exist for IN (A, AAAA) and CH (A); for other classes no address or glue issue is ever expected",
+            "narrow policy: glue is required iff the topmost cut above the server is the owner of the NS RRset; when the owner is itself below another cut and the server is below the owner, MissingGlue is accepted either way",
+            "an address found for a glue name only by wildcard synthesis below the cut: MissingGlue accepted either way",
+            "a server or exchanger name synthesised from a wildcard that owns NS (semantics undefined by RFC 4592 §4.2): the address issue is accepted either way",
+            "zones whose NS/MX RDATA is not a well-formed name may be answered with Err(InvalidRdata) (not covered by the statement); otherwise Err is a violation",
+            "issues are compared as sets with names lower-cased",
+        ]),
+    );
+    ctx.finish(
+        "exploration",
+        "zones = base (empty | healthy) + every subset of <= max_added_records from the menu, x glue policy {Narrow, Wide} x class {IN, CH, HS}; oracle = independent reference checker (required set must be reported, nothing outside required + undetermined may be reported, warnings exactly MissingMxAddress and NsAtWildcard); evaluations = zones validated",
+        true,
+    )
+}
